@@ -35,7 +35,7 @@ SPECS_SYM = [
 def states(tier, seed):
     fam = seed % 3
     st = []
-    flows = [(5.0, 0.0), (-3.0, 4.0)] if tier == "quick" else [(5.0, 0.0), (-3.0, 4.0), (12.0, -10.0), (0.0, 0.0)]
+    flows = [(5.0, 0.0), (-3.0, 4.0), (2.0, -6.0)] if tier == "quick" else [(5.0, 0.0), (-3.0, 4.0), (12.0, -10.0), (0.0, 0.0)]
     # "mixed": full-span asymmetric surfaces and symmetric half-span surfaces in one list (full, half, full)
     for symset in (False, True, "mixed"):
         for n in (2, 3):
